@@ -19,11 +19,11 @@ func TestMain(m *testing.M) { run.Main(m) }
 // Mut is one mutation applied to value On (index into the list of values; the
 // list starts as [original, clone] and grows with every "clone" mutation).
 type Mut struct {
-	Name string    `json:"m"` // flat | ends | push | reverse | setcoords | srid | transform | swap | clone | reserve
-	On   int       `json:"on"`
-	I    int       `json:"i,omitempty"`
-	V    model.F   `json:"v,omitempty"`
-	G    *model.G  `json:"g,omitempty"`
+	Name string   `json:"m"` // flat | ends | push | reverse | setcoords | srid | transform | swap | clone | reserve
+	On   int      `json:"on"`
+	I    int      `json:"i,omitempty"`
+	V    model.F  `json:"v,omitempty"`
+	G    *model.G `json:"g,omitempty"`
 }
 
 // Case is a geometry (or coordinate / bounds) with a mutation history.
@@ -105,14 +105,16 @@ func snap(t geom.T) snapshot {
 	return s
 }
 
-func (a snapshot) String() string { return fmt.Sprintf("%v", struct {
-	T string
-	L geom.Layout
-	S int
-	F []uint64
-	E []int
-	EE [][]int
-}{a.typ, a.layout, a.srid, a.flat, a.ends, a.endss}) }
+func (a snapshot) String() string {
+	return fmt.Sprintf("%v", struct {
+		T  string
+		L  geom.Layout
+		S  int
+		F  []uint64
+		E  []int
+		EE [][]int
+	}{a.typ, a.layout, a.srid, a.flat, a.ends, a.endss})
+}
 
 func clone(t geom.T) geom.T {
 	switch r := t.(type) {
@@ -439,4 +441,7 @@ var spec = run.Spec[Case]{ID: "C16", Name: "clone", Gen: genCase, Prop: prop, Cl
 
 func TestPropClone(t *testing.T) { run.Generated(t, spec) }
 func TestRegress(t *testing.T)   { run.Regress(t, spec) }
-func TestReplay(t *testing.T)    { run.ReplayOne(t, spec) }
+func TestReplay(t *testing.T) {
+	run.ReplayOne(t, spec)
+	run.ReplayOne(t, bigSpec)
+}
